@@ -240,11 +240,15 @@ struct Canon {
             Ent e; memcpy((void*)&e, (char*)m.index._ptr + i * sizeof(Ent), sizeof e);
             const rpc::slice* sl[2] = {&e.first, &e.second};
             for (int k = 0; k < 2; k++) {
-                // what the library hands out / dereferences for this slice (Iterator::deserialize, find): slice | base_buffer
-                rstring s = *sl[k] | m.base_buffer;
-                if (rg && !rg->in(s.addr(), s._len)) {
-                    problem("map-slice-outside-input", fmt("%s.index[%zu].%s = {offset=%llu,length=%llu}, base_buffer is %zu bytes: slice|base_buffer = [%p,+%zu) is not inside the supplied bytes (slice::anchor checks bounds with assert only)",
-                                                           path.c_str(), i, k ? "value" : "key", (unsigned long long)sl[k]->offset, (unsigned long long)sl[k]->length, m.base_buffer._len, s.addr(), s._len));
+                // Entries are defined relative to base_buffer. Iterator::deserialize()/find() dereference slice|base_buffer, and the
+                // in-place deserialization of a value WRITES pointers into its slice, so a slice that leaves base_buffer is
+                // not a field "inside" the message even when it happens to stay inside the supplied blocks.
+                uint64_t off = (uint64_t)sl[k]->offset, len = sl[k]->length, bl = m.base_buffer._len;
+                if (!(off <= bl && len <= bl - off)) {
+                    rstring s = *sl[k] | m.base_buffer;
+                    problem("map-slice-outside-base-buffer", fmt("%s.index[%zu].%s = {offset=%llu,length=%llu} but base_buffer is %llu bytes: the library dereferences slice|base_buffer = [%p,+%zu) (%s the supplied bytes); slice::anchor checks bounds with assert only",
+                                                                 path.c_str(), i, k ? "value" : "key", (unsigned long long)off, (unsigned long long)len, (unsigned long long)bl, s.addr(), s._len,
+                                                                 rg && rg->in(s.addr(), s._len) ? "outside base_buffer but inside" : "outside"));
                     bad = true;
                 }
             }
